@@ -49,10 +49,18 @@ IMPORT_HELPER = {'import_busy': "n = 0\nwhile spin():\n    n = n + 1\n",
                  'import_printing': "while spin():\n    print('tick')\n",
                  'import_block': "print('before')\nblock()\n",
                  'import_slow_error': "a = 1\nprint('hello')\nb = a / 0\n"}
+# ... and the same after another student file that finishes at once was imported first (two timed threads started by
+# the runner's thread, the first one long finished when time is up)
+IMPORT_MAIN2 = "import first\nimport helper\nprint('main done')\n"
+IMPORT_FIRST = "ready = 1\n"
+IMPORT_HELPER2 = {'import2_busy': "n = 0\nwhile spin():\n    n = n + 1\n",
+                  'import2_printing': "while spin():\n    print('tick')\n",
+                  'import2_slow_error': "a = 1\nprint('hello')\nb = a / 0\n"}
 SECOND = "print('second')\nprobe_value = 6 * 7\n"
 # (exception, runtime feedback) of a normal completion of the terminating students
 NORMAL = {'slow': (None, []), 'slow_error': ('ZeroDivisionError', ['zero_division_error']),
-          'import_slow_error': ('ZeroDivisionError', ['zero_division_error'])}
+          'import_slow_error': ('ZeroDivisionError', ['zero_division_error']),
+          'import2_slow_error': ('ZeroDivisionError', ['zero_division_error'])}
 
 
 def _setup():
@@ -103,6 +111,8 @@ def make_body(programs, k_join, filtered, entry='run'):
         files = None
         if pname in IMPORT_HELPER:
             prog, files = IMPORT_MAIN, {'answer.py': IMPORT_MAIN, 'helper.py': IMPORT_HELPER[pname]}
+        elif pname in IMPORT_HELPER2:
+            prog, files = IMPORT_MAIN2, {'answer.py': IMPORT_MAIN2, 'first.py': IMPORT_FIRST, 'helper.py': IMPORT_HELPER2[pname]}
         else:
             prog = PROGRAMS[pname]
         snap = sc.GlobalState()
@@ -147,6 +157,7 @@ def make_body(programs, k_join, filtered, entry='run'):
                     ctx.step('run(threaded=True)')
                     sb.run(threaded=True)
                 first = _observe(sb, n0)
+                first['never_interrupted'] = S.never_interrupted()
             except BaseException as e:    # noqa
                 if isinstance(e, Hang):
                     raise
@@ -183,7 +194,7 @@ def make_body(programs, k_join, filtered, entry='run'):
         for l in S.log:
             if l[0] == 'finished':
                 who_last = l[1]
-        sig_base = {'program_kind': 'stuck in its exception text' if pname.startswith('slow_str') else 'imports a second file' if pname.startswith('import_') else 'terminating' if pname.startswith('slow') else ('blocking' if pname == 'block' else 'looping')}
+        sig_base = {'program_kind': 'stuck in its exception text' if pname.startswith('slow_str') else 'imports a second file' if pname.startswith('import') else 'terminating' if pname.startswith('slow') else ('blocking' if pname == 'block' else 'looping')}
         canon = repr((pname, first, second, final, leaked, repr(err)[:60], repr(err2)[:60]))
         ctx.observe(canon)
         after_timer_steps = any(l[0] in ('deliver', 'blocks forever', 'drain horizon reached') for l in S.log)
@@ -233,6 +244,12 @@ def make_body(programs, k_join, filtered, entry='run'):
             if first['stacks'] != (0, 0) or not first['stdout_is_real'] or not first['sleep_is_real']:
                 fail('patch state not clean when the timed-out call returns', stacks=first['stacks'],
                      stdout_is_real=first['stdout_is_real'])
+            if first['never_interrupted']:
+                # a thread of the abandoned execution nobody has told to stop keeps running next to later executions
+                # (it is only stopped when -- if -- whoever waits for it wakes up): the schedules in which it then
+                # alters a later execution need one more pre-emption; the state that makes them possible is judged here
+                fail('a thread started by the timed-out execution was never told to stop when the call returned',
+                     threads=first['never_interrupted'])
         # the second execution must look like one in a sandbox that never timed out
         if second['own_output'] != 'second\n' or second['probe_value'] != 42 or second['exception'] is not None:
             fail('later execution altered', own_output=second['own_output'], probe=second['probe_value'],
@@ -355,6 +372,9 @@ def phases(tier):
                   horizon_s=30, describe='sandbox.threaded = True; the main file imports a second student file that never '
                                          'finishes / fails late (a timed thread inside the timed thread): every position of '
                                          'the outer and of the inner timer, no pre-emption'),
+            Phase('configured-two-imports-b0', make_body(IMPORT_HELPER2, 150, True, 'run-configured'), bound=0, setup=_setup, chunk=150,
+                  horizon_s=30, describe='sandbox.threaded = True; the main file imports a student file that finishes at '
+                                         'once and then one that never finishes / fails late: every timer position, no pre-emption'),
             Phase('call-entry-b1', make_body(_sub('busy', 'printing', 'block', 'slow_error', 'swallow_once'), 40, True, 'call'),
                   bound=1, setup=_setup, chunk=150, horizon_s=30, max_execs=600000,
                   describe="the time-out inside call('go', threaded=True); points = lines touching shared state; bound 1"),
@@ -371,6 +391,9 @@ def phases(tier):
         Phase('configured-import-b1', make_body(IMPORT_HELPER, 90, True, 'run-configured'), bound=1, setup=_setup, chunk=150,
               horizon_s=30, max_execs=1500000,
               describe='nested timed import (a timed thread inside the timed thread); pre-emption bound 1 (capped, cap reported)'),
+        Phase('configured-two-imports-b1', make_body(IMPORT_HELPER2, 150, True, 'run-configured'), bound=1, setup=_setup, chunk=150,
+              horizon_s=30, max_execs=1000000,
+              describe='two nested timed imports, the first finished; pre-emption bound 1 (capped, cap reported)'),
         Phase('evaluate-entry-b1', make_body(PROGRAMS, 40, True, 'evaluate'), bound=1, setup=_setup, chunk=150, horizon_s=30,
               describe="the time-out inside evaluate('go()', threaded=True); all programs; pre-emption bound 1"),
         Phase('call-entry-b2', make_body(PROGRAMS, 40, True, 'call'), bound=2, setup=_setup, chunk=150, horizon_s=30,
